@@ -64,7 +64,7 @@ end hybrid.Storage
 namespace Skel
 def CreateDedicatedConnection : List String := ["connections.Load", "connections.Delete", "getNodeAddr", "d.DialContext", "connections.Store"]
 def GetNodeAddress : List String := ["storage.Get"]
-def LookupWaitingTunnel : List String := ["makeKey", "storage.Get", "json.Marshal", "json.Unmarshal", "json.Unmarshal", "json.Unmarshal", "After", "storage.Delete"]
+def LookupWaitingTunnel : List String := ["makeKey", "storage.Get", "json.Marshal", "json.Unmarshal", "json.Unmarshal", "json.Unmarshal", "After"]
 def RegisterNodeAddress : List String := ["storage.Set"]
 def RegisterWaitingTunnel : List String := ["time.Now", "now.Add", "makeKey", "storage.Set"]
 def RemoveWaitingTunnel : List String := ["makeKey", "storage.Delete"]
